@@ -17,6 +17,11 @@ class C08(Property):
             opts, names = gen.gen_options(rng, features=("alt", "cmd", "pos", "modealt"), max_depth=3, allow_catch=False)
             if not common.has_kind(opts, ("cmd",)):
                 continue
+            # commands with one or two further long names (aliases)
+            if rng.random() < 0.4:
+                for x in gen.walk(opts):
+                    if x["k"] == "cmd" and not x["aliases"] and rng.random() < 0.7:
+                        x["aliases"] = [x["name"] + suf for suf in rng.sample(["x", "-alt", "2"], rng.choice([1, 2]))]
             for _ in range(3):
                 gid = "g%d" % k
                 k += 1
@@ -80,6 +85,16 @@ class C08(Property):
                     cases.append(Case(gid + "sp", opts, gen.flatten(pieces[:ci + 1]) + sub_argv,
                                       tags={"role": "sub_in_parent", "group": gid, "clustered": bool(merged)}))
                     cases.append(Case(gid + "sa", sub_opts, sub_argv, tags={"role": "sub_alone", "group": gid}))
+                # (7) a word that happens to be another name of the command just entered, right after its name: for the
+                #     subcommand it is an ordinary word -- exactly like any other word at the same place
+                for ci in cmd_ixs[:1]:
+                    nd = pieces[ci].node
+                    others = [n for n in [nd["name"]] + nd["aliases"] if n.encode() != pieces[ci].items[0]]
+                    if others:
+                        w = rng.choice(others).encode()
+                        pre, post = gen.flatten(pieces[:ci + 1]), gen.flatten(pieces[ci + 1:])
+                        cases.append(Case(gid + "aw", opts, pre + [w] + post, tags={"role": "alias_word", "group": gid, "word": w}))
+                        cases.append(Case(gid + "an", opts, pre + [b"zzwordq"] + post, tags={"role": "neutral_word", "group": gid}))
                 # (5) a second command name where none is expected (after the deepest level's items)
                 if cmd_ixs:
                     nm = pieces[cmd_ixs[0]].items[0]
@@ -108,10 +123,23 @@ class C08(Property):
                 out.append(Finding("violation", cp, "the items right of the command name %r are judged %s by the subcommand's own parser "
                                                     "run on them alone, but %s inside the enclosing parser"
                                    % (ca.argv, common.show(impl.get(ca.id)), common.show(impl.get(cp.id))), related=[ca]))
+        neutral = {c.tags["group"]: c for c in cases if c.tags["role"] == "neutral_word"}
         for c in cases:
             role = c.tags["role"]
             dist[role] = dist.get(role, 0) + 1
-            if role in ("base", "sub_in_parent", "sub_alone"):
+            if role == "alias_word":
+                nc = neutral.get(c.tags["group"])
+                ia, inn = impl.get(c.id), impl.get(nc.id) if nc else None
+                if inn is not None and ia is not None:
+                    nontrivial.append(c.line())
+                    ca, cn = compare.impl_class(ia), compare.impl_class(inn)
+                    want = inn[1].replace("(bytes %s)" % gen.hx(b"zzwordq"), "(bytes %s)" % gen.hx(c.tags["word"])) if cn == "OK" else None
+                    if ca != cn or (cn == "OK" and ia[1] != want):
+                        out.append(Finding("violation", c, "the word %r right of the command name -- another name of that command -- is "
+                                                           "not judged like any other word by the subcommand's parser: %s  vs  %s (with a "
+                                                           "neutral word)" % (c.tags["word"], common.show(ia), common.show(inn)), related=[nc]))
+                continue
+            if role in ("base", "sub_in_parent", "sub_alone", "neutral_word"):
                 continue
             b = base[c.tags["group"]]
             b_ok = compare.impl_class(impl.get(b.id)) == "OK"
